@@ -222,6 +222,8 @@ def check_receivers(eng, run):
                 if not isinstance(iff, ast.If) or not (st in iff.body or st in iff.orelse):
                     continue
                 t, neg = strip_not(iff.test)
+                if isinstance(t, ast.NamedExpr) and isinstance(t.target, ast.Name):
+                    t = t.target  # `if not (chunk := await recv()):`
                 if st in iff.orelse:
                     neg = not neg
                 # the branch taken when the value just read is empty: `not x` / `x == 0` / `x <= 0` / `len(x) == 0` (or the else-arm of the opposite test)
@@ -259,7 +261,7 @@ def check_receivers(eng, run):
         # nothing but read values (or None) is fed
         read_vars = set()
         for n in own_nodes(fn.node):
-            if isinstance(n, (ast.Assign, ast.AnnAssign)) and n.value is not None:
+            if isinstance(n, (ast.Assign, ast.AnnAssign, ast.NamedExpr)) and n.value is not None:
                 v = n.value.value if isinstance(n.value, ast.Await) else n.value
                 if isinstance(v, ast.Call) and isinstance(v.func, ast.Attribute) and v.func.attr in READS:
                     tg = n.targets if isinstance(n, ast.Assign) else [n.target]
